@@ -267,7 +267,29 @@ class Ctx:
 
 
 def eval_apply(ctx, modname, cls, alias, arity=None):
-    """Interpret `<modname>.<cls>.apply(alias, u[, v[, w]])`."""
+    """Interpret `<modname>.<cls>.apply(alias, u[, v[, w]])`: by the
+    symbolic evaluator; where that does not follow the dispatch (a table
+    of functions, a module-level constant) and the class is Python, by
+    the interpreter on concrete operand numbers."""
+    fn = ctx.program.func(f'{modname}.{cls}.apply')
+    try:
+        v = _eval_apply_symbolic(ctx, modname, cls, alias, arity)
+        decided = classify(v)[0] != 'undecided'
+    except me.Undecided:
+        if fn.unit.rel.endswith('.pyx'):
+            raise
+        v, decided = None, False
+    if decided or fn.unit.rel.endswith('.pyx'):
+        return v
+    try:
+        return eval_apply_concrete(ctx, modname, cls, alias, arity)
+    except me.Undecided:
+        if v is None:
+            raise
+        return v
+
+
+def _eval_apply_symbolic(ctx, modname, cls, alias, arity=None):
     fn = ctx.program.func(f'{modname}.{cls}.apply')
     n = arity if arity is not None else arity_of(alias)
     none = ('const', None)
@@ -285,13 +307,138 @@ def eval_apply(ctx, modname, cls, alias, arity=None):
     return ev.call_function(fn.node, argvals)
 
 
+def eval_apply_concrete(ctx, modname, cls, alias, arity=None):
+    """`apply` run by the small-model interpreter (ddverif/interp.py) on
+    the operand numbers 2, 3, 5 with recording models of `ite`,
+    `quantify` and `support`: follows dispatch through tables, lambdas
+    and module-level constants, which the symbolic evaluator does not.
+    Returns a value of the same form as `eval_apply`, or raises
+    me.Undecided."""
+    from .. import interp
+    fn = ctx.program.func(f'{modname}.{cls}.apply')
+    n = arity if arity is not None else arity_of(alias)
+    codes = {2: U, 3: V, 5: W}
+    made = dict()      # result code -> value
+
+    def decode(x):
+        if isinstance(x, bool) or not isinstance(x, int):
+            if isinstance(x, interp.Sym) and x.attrs and 'value' in x.attrs:
+                return x.attrs['value']
+            raise me.Undecided(f'operand {x!r}')
+        if x in (1, -1):
+            return TRUE_ if x == 1 else FALSE_
+        v = codes.get(abs(x)) or made.get(abs(x))
+        if v is None:
+            raise me.Undecided(f'operand {x!r}')
+        return v if x > 0 else ('not', v)
+
+    def new(value):
+        k = 100 + len(made)
+        made[k] = value
+        return k
+
+    def ite(m, call, args, kw):
+        if len(args) != 3 or kw:
+            raise interp.Unknown('ite arity')
+        return new(('ite',) + tuple(decode(a) for a in args))
+
+    def support(m, call, args, kw):
+        if len(args) != 1:
+            raise interp.Unknown('support arity')
+        return interp.Sym('support', {'value': ('support', decode(args[0]))})
+
+    def quantify(m, call, args, kw):
+        vals = dict(zip(('u', 'qvars', 'forall'), args))
+        vals.update(kw)
+        if 'u' not in vals or 'qvars' not in vals or not isinstance(
+                vals.get('forall', False), bool):
+            raise interp.Unknown('quantify arguments')
+        return new(('Q', 'forall' if vals.get('forall', False)
+                    else 'exists', decode(vals['u']),
+                    decode(vals['qvars'])))
+    stubs = {'ite': ite, 'support': support, 'quantify': quantify,
+             '__contains__': lambda m, c, a, k: True}
+    def consts(mod, name):
+        v = ctx.consts.resolve(mod, [name])
+        if v is None or v[0] != 'const':
+            raise KeyError(name)
+        return v[1]
+    resolver = interp.ModuleEnv(ctx.program, modname, stubs,
+                                fallback=consts)
+    env = {'self': interp.Sym('self')}
+    params = [p for p in fn.params if p != 'self']
+    vals = [alias, 2, 3 if n >= 2 else None, 5 if n >= 3 else None]
+    for p, v in zip(params, vals):
+        env[p] = v
+    try:
+        out, _ = interp.run_function(fn.node, env, stubs, resolver)
+    except interp.Unknown as e:
+        raise me.Undecided(f'interpreter: {e}')
+    if out[0] == 'raise':
+        return ('raise', out[1])
+    if out[0] != 'return':
+        raise me.Undecided('apply returns nothing')
+    return decode(out[1])
+
+
+TRUE_, FALSE_ = me.TRUE, me.FALSE
+
+
 def eval_arity(ctx, args):
-    """Interpret `dd._utils.assert_operator_arity(op, v, w, kind)`."""
+    """Interpret `dd._utils.assert_operator_arity(op, v, w, kind)`: by
+    the symbolic evaluator, and where that gives no verdict by the
+    interpreter (only whether an operand is None matters)."""
     fn = ctx.program.func('dd._utils.assert_operator_arity')
     ev = ctx.evaluator('dd._utils')
     params = fn.params
     argvals = dict(zip(params, args))
-    r = ev.call_function(fn.node, argvals)
+    try:
+        r = ev.call_function(fn.node, argvals)
+        if not _has_unknown(r):
+            return r
+        first = None
+    except me.Undecided as e:
+        r, first = None, e
+    try:
+        return eval_arity_concrete(ctx, args)
+    except me.Undecided:
+        if first is not None:
+            raise first
+        return r
+
+
+def eval_arity_concrete(ctx, args):
+    from .. import interp
+    fn = ctx.program.func('dd._utils.assert_operator_arity')
+    key = tuple(
+        a[1] if a[0] == 'const' else '<operand>' for a in args)
+    memo = ctx.__dict__.setdefault('_arity_memo', dict())
+    if key in memo:
+        return memo[key]
+    vals = []
+    for k, a in enumerate(args):
+        if a[0] == 'const':
+            vals.append(a[1])
+        else:
+            vals.append(interp.Sym(f'operand{k}'))
+
+    def consts(mod, name):
+        v = ctx.consts.resolve(mod, [name])
+        if v is None or v[0] != 'const':
+            raise KeyError(name)
+        return v[1]
+    resolver = ctx.__dict__.get('_arity_resolver')
+    if resolver is None:
+        resolver = interp.ModuleEnv(ctx.program, 'dd._utils', {},
+                                    fallback=consts)
+        ctx.__dict__['_arity_resolver'] = resolver
+    env = dict(zip(fn.params, vals))
+    try:
+        out, _ = interp.run_function(fn.node, env, {}, resolver)
+    except interp.Unknown as e:
+        raise me.Undecided(f'interpreter: {e}')
+    r = ('raise', out[1]) if out[0] == 'raise' else ('const', None)
+    memo[key] = r
     return r
 
 
@@ -564,6 +711,22 @@ CMP_ORACLE = {
 }
 
 
+def _has_unknown(v):
+    if isinstance(v, tuple):
+        if v and v[0] == 'unknown':
+            return True
+        return any(_has_unknown(x) for x in v)
+    return False
+
+
+def _subst(v, mapping):
+    if isinstance(v, tuple):
+        if len(v) == 2 and v[0] == 'sym' and v[1] in mapping:
+            return mapping[v[1]]
+        return tuple(_subst(x, mapping) for x in v)
+    return v
+
+
 def function_evaluator(ctx, modname, cls, mgr_mod, mgr_cls):
     program = ctx.program
     extra = dict()
@@ -605,7 +768,20 @@ def function_evaluator(ctx, modname, cls, mgr_mod, mgr_cls):
         sub = ctx.evaluator(mgr_mod, mgr_cls,
                             {'assert_operator_arity': arity_check})
         sub.depth = ev.depth + 1
-        return sub.call_function(fn.node, argvals)
+        try:
+            r = sub.call_function(fn.node, argvals)
+        except me.Undecided:
+            r = ('unknown', 'apply')
+        if _has_unknown(r) and not fn.unit.rel.endswith('.pyx'):
+            # the manager's dispatch is not followed symbolically: take
+            # its meaning from the interpreter and put the operands in
+            try:
+                g = eval_apply_concrete(ctx, mgr_mod, mgr_cls, alias,
+                                        len(args) - 1)
+                return _subst(g, {'u': ops[0], 'v': ops[1], 'w': ops[2]})
+            except me.Undecided:
+                pass
+        return r
     extra['apply'] = apply_handler
     ev = ctx.evaluator(modname, cls, extra)
 
